@@ -22,6 +22,7 @@ type ReadSched struct {
 	ChunkSeed   uint64      `json:"chunk_seed,omitempty"`  // for policy 2
 	EOFWithData bool        `json:"eof_with_last_data"`    // final bytes delivered together with io.EOF
 	ZeroReads   map[int]int `json:"zero_reads,omitempty"`  // offset -> number of (0,nil) reads before data at that offset
+	ZeroEvery   int         `json:"zero_every,omitempty"`  // k>0: one (0,nil) read before every k-th byte offset (a slow but progressing reader)
 	ErrAt       int         `json:"error_at"`              // -1: none; else (0,errSim) once pos reaches it (sticky)
 	CutAt       int         `json:"cut_at"`                // -1: none; else the stream ends (EOF) at this offset
 }
@@ -37,6 +38,9 @@ func (s *ReadSched) String() string {
 		for _, k := range ks {
 			zr += fmt.Sprintf(" z@%d×%d", k, s.ZeroReads[k])
 		}
+	}
+	if s.ZeroEvery > 0 {
+		zr += fmt.Sprintf(" zeroEvery=%d", s.ZeroEvery)
 	}
 	return fmt.Sprintf("br=%v chunk=%d eofWithData=%v err@%d cut@%d%s", s.ByteReader, s.Chunk, s.EOFWithData, s.ErrAt, s.CutAt, zr)
 }
@@ -63,6 +67,9 @@ func DrawReadSched(t *Tape, L int, faults bool) *ReadSched {
 		}
 		s.ZeroReads[t.Draw(L+1)] = 1 + t.Small(3)
 	}
+	if t.Draw(8) == 7 {
+		s.ZeroEvery = 1 + t.Small(3)
+	}
 	if faults {
 		switch t.Draw(3) {
 		case 1:
@@ -82,6 +89,7 @@ type SimReader struct {
 	pos     int
 	s       *ReadSched
 	zleft   map[int]int
+	zeDone  map[int]bool
 	reads   int
 	eofSent bool
 	errSent bool
@@ -126,6 +134,14 @@ func (r *SimReader) Read(p []byte) (n int, err error) {
 	}
 	if z := r.zleft[r.pos]; z > 0 && !r.eofSent {
 		r.zleft[r.pos] = z - 1
+		r.ZeroDelivered++
+		return 0, nil
+	}
+	if k := r.s.ZeroEvery; k > 0 && r.pos%k == 0 && !r.eofSent && !r.zeDone[r.pos] {
+		if r.zeDone == nil {
+			r.zeDone = map[int]bool{}
+		}
+		r.zeDone[r.pos] = true
 		r.ZeroDelivered++
 		return 0, nil
 	}
@@ -317,27 +333,58 @@ func (d *SimDisk) Open(name string) (*verifsim.File, error) {
 }
 
 func (d *SimDisk) Create(name string) (*verifsim.File, error) {
-	d.c.Event("disk.Create(%s)", name)
+	return d.OpenFile(name, os.O_RDWR|os.O_CREATE|os.O_TRUNC)
+}
+
+// OpenFile models os.OpenFile on the in-memory disk: O_CREATE, O_TRUNC, O_APPEND,
+// O_EXCL and positional writes (an open without O_TRUNC keeps the old content).
+func (d *SimDisk) OpenFile(name string, flag int) (*verifsim.File, error) {
+	if flag&(os.O_WRONLY|os.O_RDWR|os.O_CREATE|os.O_TRUNC|os.O_APPEND) == 0 {
+		return d.Open(name)
+	}
+	d.c.Event("disk.OpenFile(%s,%#x)", name, flag)
 	d.c.C["disk_events"]++
 	if e := d.CreateErr[name]; e != nil {
 		d.c.C["fault.create_error"]++
 		return nil, e
 	}
-	d.Files[name] = []byte{}
+	_, exists := d.Files[name]
+	if !exists && flag&os.O_CREATE == 0 {
+		return nil, &fs.PathError{Op: "open", Path: name, Err: os.ErrNotExist}
+	}
+	if exists && flag&os.O_EXCL != 0 && flag&os.O_CREATE != 0 {
+		return nil, &fs.PathError{Op: "open", Path: name, Err: os.ErrExist}
+	}
+	if !exists || flag&os.O_TRUNC != 0 {
+		d.Files[name] = []byte{}
+	}
 	d.Opens++
 	written := 0
+	pos := 0
 	return &verifsim.File{Nm: name,
 		WriteFn: func(p []byte) (int, error) {
 			d.WriteCalls++
 			d.c.Event("disk.Write(%s,%d) h=%x", name, len(p), uint64(fnvOff.Bytes(p)))
 			d.c.C["disk_events"]++
+			put := func(q []byte) {
+				f := d.Files[name]
+				if flag&os.O_APPEND != 0 {
+					pos = len(f)
+				}
+				for len(f) < pos+len(q) {
+					f = append(f, 0)
+				}
+				copy(f[pos:], q)
+				pos += len(q)
+				d.Files[name] = f
+			}
 			if d.TearAt >= 0 {
 				room := d.TearAt - written
 				if room < 0 {
 					room = 0
 				}
 				if len(p) > room {
-					d.Files[name] = append(d.Files[name], p[:room]...)
+					put(p[:room])
 					written += room
 					d.c.C["fault.torn_write"]++
 					if d.TearReports {
@@ -347,10 +394,39 @@ func (d *SimDisk) Create(name string) (*verifsim.File, error) {
 					return len(p), nil // lost write: reported as successful
 				}
 			}
-			d.Files[name] = append(d.Files[name], p...)
+			put(p)
 			written += len(p)
 			return len(p), nil
 		},
+		ReadFn: func(p []byte) (int, error) {
+			f := d.Files[name]
+			if pos >= len(f) {
+				return 0, io.EOF
+			}
+			n := copy(p, f[pos:])
+			pos += n
+			return n, nil
+		},
 		CloseFn: func() error { d.Closes++; d.c.Event("disk.Close(%s)", name); return nil },
 	}, nil
+}
+
+func (d *SimDisk) Remove(name string) error {
+	d.c.Event("disk.Remove(%s)", name)
+	if _, ok := d.Files[name]; !ok {
+		return &fs.PathError{Op: "remove", Path: name, Err: os.ErrNotExist}
+	}
+	delete(d.Files, name)
+	return nil
+}
+
+func (d *SimDisk) Rename(o, n string) error {
+	d.c.Event("disk.Rename(%s,%s)", o, n)
+	b, ok := d.Files[o]
+	if !ok {
+		return &fs.PathError{Op: "rename", Path: o, Err: os.ErrNotExist}
+	}
+	d.Files[n] = b
+	delete(d.Files, o)
+	return nil
 }
